@@ -300,7 +300,61 @@ def run(index: RepoIndex, rep) -> None:
     wrappers(index, rep, 'C05.R5')
 
 
+def pose_coherence(index: RepoIndex, rep, rule: str) -> None:
+    """Agent keeps one copy of its pose: either `transform` is stored and position /
+    orientation are properties over it, or position and orientation are stored and
+    `transform` is a property computed from them.  A pose stored twice goes stale as soon as
+    the dynamics assign agent.position, and the view is cut out around the old pose."""
+    AG = 'gym_gridverse/agent.py'
+    c = index.cls(AG, 'Agent')
+    stored = set()
+    for mn in ('__init__', '__post_init__'):
+        m = c.methods.get(mn)
+        if m is not None:
+            for e in walk_function(m.node).events:
+                if e.kind == 'attrstore' and src(e.target).startswith('self.'):
+                    stored.add(src(e.target)[5:])
+    for st in c.node.body:          # dataclass-style fields
+        if isinstance(st, ast.AnnAssign) and isinstance(st.target, ast.Name):
+            stored.add(st.target.id)
+    pose = stored & {'transform', 'position', 'orientation'}
+
+    def prop_returns(name: str) -> str:
+        m = c.methods.get(name)
+        if m is None or not m.is_property():
+            return ''
+        w = walk_function(m.node)
+        rets = [src(w.expand(e.value)) for e in w.events if e.kind == 'return' and e.value is not None]
+        return rets[0] if len(rets) == 1 else ''
+
+    def setter_writes(name: str) -> str:
+        m = c.methods.get(name + '.setter')
+        if m is None:
+            return ''
+        w = walk_function(m.node)
+        st = [src(e.target) for e in w.events if e.kind == 'attrstore']
+        return st[0] if len(st) == 1 else ''
+    if pose == {'transform'}:
+        ok = prop_returns('position') == 'self.transform.position' and \
+            prop_returns('orientation') == 'self.transform.orientation' and \
+            setter_writes('position') == 'self.transform.position' and \
+            setter_writes('orientation') == 'self.transform.orientation'
+        how = 'transform stored; position / orientation are views of it'
+    elif pose == {'position', 'orientation'}:
+        ok = prop_returns('transform') in ('Transform(self.position, self.orientation)',
+                                           'Transform(position=self.position, '
+                                           'orientation=self.orientation)')
+        how = 'position and orientation stored; transform computed on every read'
+    else:
+        ok, how = False, f'stored separately: {sorted(pose)}'
+    rep.check(ok, rule, AG, 'Agent', c.node.lineno, how,
+              f'the agent does not keep a single copy of its pose ({how}): after the dynamics '
+              f'assign agent.position / agent.orientation the transform used to cut the view '
+              f'would be stale', 'one copy of the pose')
+
+
 def agent_rule(index, rep, rule, pipe: Pipeline) -> None:
+    pose_coherence(index, rep, rule)
     a = pipe.agent_expr
     fn = pipe.func
     if not (isinstance(a, ast.Call) and src(a.func) == 'Agent'):
